@@ -57,7 +57,7 @@ def census(ctx, prog, scope=None, floor=None):
             found.setdefault((src, to), []).append((canon(e)[:80], s["sp"]))
         if not found:
             continue
-        ctx.visit(f)
+        ctx.visit(f, weak=True)
         ent = None
         for suf, tab in REVIEWED.items():
             if f.path.endswith(suf):
